@@ -3,7 +3,7 @@
    proved; that the traversal consults them with the right result lists is checked on traces. *)
 From Coq Require Import List ZArith NArith Bool Arith Lia.
 Import ListNotations.
-From I2N Require Import Model.Retry Model.Traverse Model.TraverseRun Proofs.RetryProofs Proofs.TraverseProofs Proofs.TraverseInv.
+From I2N Require Import Model.Retry Model.Traverse Model.TraverseRun Proofs.RetryProofs Proofs.TraverseProofs Proofs.TraverseInv Proofs.TraversePresent.
 Open Scope Z_scope.
 
 (* clone sources and flat tests are never executed *)
@@ -51,3 +51,16 @@ Theorem C03_stateless_executions_within_budget : forall g p sched i,
   (length (node_uids i (snd (run_schedule g (init_state g p) sched))) <= budget g i)%nat.
 Proof. exact stateless_executions_within_budget. Qed.
 Print Assumptions C03_stateless_executions_within_budget.
+
+(* "a setup test whose states are all found when it is first examined is not executed in that scope", for the global reuse
+   scope, for EVERY graph, pool population, schedule and outcome assignment and ANY number of workers: split the run's events
+   at an examination that finds the states of j present (EScan w j false); if before it nothing had happened to the copies of
+   that test (no scan, no start) and no worker had failed, then no copy is executed afterwards.  cls_b: every copy lies in the
+   graph, sees the same class and is an ordinary stateful test with the global scope (checked on every exported graph). *)
+Theorem C03_present_setup_never_executed : forall g p sched i pre w j post v k u b l,
+  cls_b g i = true ->
+  concat (snd (run_schedule g (init_state g p) sched)) = pre ++ EScan w j false :: post ->
+  In j (class_of g i) -> (forall x, In x pre -> cevb (class_of g i) x = false /\ isfail x = false) ->
+  In (EStart v k u b l) post -> ~ In k (class_of g i).
+Proof. exact present_setup_never_executed. Qed.
+Print Assumptions C03_present_setup_never_executed.
